@@ -1,8 +1,11 @@
 /-
 C02 — loading resolves every `$ref` to exactly the object it designates.
 Property theorems only. Model and specification: KinModel/Loader.lean (abstract algorithm, parametric in the
-one-step meaning of a reference text), KinModel/LoaderJson.lean (concrete step functions); helper lemmas:
-KinModel/Lemmas/C02.lean.
+one-step meaning of a reference text), KinModel/LoaderJson.lean (concrete step functions, position tables); helper
+lemmas: KinModel/Lemmas/C02.lean (soundness invariant), C02Term.lean (fuel bound, fuel independence),
+C02Complete.lean (completeness invariant), C02Step.lean (pointer unescaping, path cleaning).
+Sections: (2) soundness, (3) failing references, (1) termination, (4) completeness, (T) generated tables,
+(S) one-step functions, witnesses of the open findings, regressions of the repaired ones, non-vacuity.
 -/
 import KinModel.Lemmas.C02
 import KinModel.Lemmas.C02Term
